@@ -1,8 +1,6 @@
 import Gaftools.Props.C03
 import Gaftools.Props.Glue2
-import Gaftools.Props.TieA2
 #print axioms Gaftools.C03.regionNodes_iff
 #print axioms Gaftools.C03.selectNodes_exact
 #print axioms Gaftools.C03.selectRegions_exact
 #print axioms Gaftools.Glue.goodGraph_of_valid
-#print axioms Gaftools.TieA.regionNodes_gen
